@@ -243,9 +243,13 @@ func c17Configs(thorough bool) []c17Config {
 				c17Config{Name: call + "-starttls-auth", Call: call, TLS: "starttls", Caps: with("STARTTLS"), CapsTLS: with("AUTH PLAIN"), Auth: "PLAIN-TLSONLY", NRcpt: 1, TimeoutMS: tmo},
 			)
 		}
+		if call != "dial" {
+			// without the NOOP connection check the deadline must still be armed for the send dialogue
+			cfgs = append(cfgs, c17Config{Name: call + "-nonoop", Call: call, TLS: "none", Caps: all, NoNoop: true, NRcpt: 2, TimeoutMS: tmo})
+		}
 		if thorough {
 			cfgs = append(cfgs,
-				c17Config{Name: call + "-nonoop", Call: call, TLS: "none", Caps: all, NoNoop: true, NRcpt: 3, TimeoutMS: 200},
+				c17Config{Name: call + "-nonoop-200", Call: call, TLS: "none", Caps: all, NoNoop: true, NRcpt: 3, TimeoutMS: 200},
 				c17Config{Name: call + "-plain-400", Call: call, TLS: "none", Caps: all, NRcpt: 1, TimeoutMS: 400},
 			)
 		}
